@@ -139,6 +139,10 @@ type simRegistry struct {
 	pushLog   []string
 	onPutMan  func(name string, body []byte)
 	committed map[string]bool // digests whose upload was committed (or that existed before)
+	// perRepo: a blob is visible in a repository only after it was uploaded to it, mounted
+	// into it or published in it (what registries do); repoHas["ns/repo"][digest]
+	perRepo bool
+	repoHas map[string]map[string]bool
 }
 
 type simUpload struct {
@@ -150,13 +154,28 @@ type simUpload struct {
 
 func newSimRegistry(now func() time.Duration) *simRegistry {
 	return &simRegistry{blobs: map[string][]byte{}, manifests: map[string][]byte{}, served: map[string][]byte{}, tampered: map[string]bool{},
-		now: now, token: "tok-1", uploads: map[string]*simUpload{}, committed: map[string]bool{}}
+		now: now, token: "tok-1", uploads: map[string]*simUpload{}, committed: map[string]bool{}, repoHas: map[string]map[string]bool{}}
 }
 
 func (r *simRegistry) logf(f string, a ...any) {
 	if len(r.log) < 400 {
 		r.log = append(r.log, fmt.Sprintf("t=%v ", r.now())+fmt.Sprintf(f, a...))
 	}
+}
+
+// has reports whether the repository can see the blob.
+func (r *simRegistry) has(repo, digest string) bool {
+	if _, ok := r.blobs[digest]; !ok {
+		return false
+	}
+	return !r.perRepo || r.repoHas[repo][digest]
+}
+
+func (r *simRegistry) grant(repo, digest string) {
+	if r.repoHas[repo] == nil {
+		r.repoHas[repo] = map[string]bool{}
+	}
+	r.repoHas[repo][digest] = true
 }
 
 func sha256Digest(b []byte) string { return fmt.Sprintf("sha256:%x", sha256.Sum256(b)) }
@@ -314,6 +333,9 @@ func (r *simRegistry) registry(req *http.Request, body []byte) (*http.Response, 
 		return simResp(req, 201, nil, nil, 0), nil
 	case kind == "blobs" && rest != "" && !strings.HasPrefix(rest, "uploads"):
 		data, ok := r.blobs[rest]
+		if ok && !r.has(repo, rest) {
+			ok = false
+		}
 		if !ok || r.plan.pick(f404) != "" {
 			return simText(req, 404, `{"errors":[{"code":"BLOB_UNKNOWN"}]}`), nil
 		}
@@ -540,7 +562,9 @@ func (r *simRegistry) upload(req *http.Request, repo, rest string, body []byte) 
 		if from := req.URL.Query().Get("from"); from != "" {
 			// cross-repository mount
 			d := req.URL.Query().Get("mount")
-			if _, ok := r.blobs[d]; ok {
+			if r.has(strings.ToLower(from), d) || (!r.perRepo && r.blobs[d] != nil) {
+				verifsim.Probe("upload_mounted")
+				r.grant(repo, d)
 				return simResp(req, 201, nil, nil, 0), nil
 			}
 		}
@@ -608,6 +632,7 @@ func (r *simRegistry) upload(req *http.Request, repo, rest string, body []byte) 
 		}
 		r.blobs[d] = buf.Bytes()
 		r.committed[d] = true
+		r.grant(u.repo, d)
 		delete(r.uploads, id)
 		return simResp(req, 201, nil, nil, 0), nil
 	}
